@@ -135,6 +135,36 @@ def delSlice {α} (l : List α) (a b : Int) : List α :=
   let hi := clampBound l.length b
   l.take lo ++ l.drop (max lo hi)
 
+/-- `l[a:b:-1]` (`none` = omitted bound): the elements with index in `(stop, start]`, last first -/
+def sliceRev {α} (l : List α) (a b : Option Int) : List α :=
+  let n : Int := l.length
+  let start : Int := match a with
+    | none => n - 1
+    | some i => let j := if i < 0 then i + n else i; if j < 0 then -1 else if j ≥ n then n - 1 else j
+  let stop : Int := match b with
+    | none => -1
+    | some i => let j := if i < 0 then i + n else i; if j < 0 then -1 else if j ≥ n then n - 1 else j
+  ((l.take (start + 1).toNat).drop (stop + 1).toNat).reverse
+
+/-- `l[a:b] = v` on a bytearray (the length may change) -/
+def setSlice {α} (l : List α) (a b : Int) (v : List α) : List α :=
+  let lo := clampBound l.length a
+  let hi := clampBound l.length b
+  l.take lo ++ v ++ l.drop (max lo hi)
+
+/-- `range(a, b, s)`: `ValueError` for `s = 0` -/
+def rangeStep (a b s : Int) : Py (List Int) :=
+  if s = 0 then .error .value
+  else if s > 0 then .ok ((List.range ((b - a + s - 1) / s).toNat).map (fun (i : Nat) => a + (i : Int) * s))
+  else .ok ((List.range ((a - b - s - 1) / (-s)).toNat).map (fun (i : Nat) => a + (i : Int) * s))
+
+/-- `l.index(x)` on a list: position of the first element equal to `x`, `ValueError` when absent -/
+def indexOfG {α} [DecidableEq α] : List α → α → Py Int
+  | [], _ => .error .value
+  | a :: l, x => if a = x then .ok 0 else match indexOfG l x with
+    | .ok i => .ok (i + 1)
+    | .error e => .error e
+
 /-- `l * n` (repetition) -/
 def repeatL {α} (l : List α) (n : Int) : List α := (List.replicate n.toNat l).flatten
 
@@ -216,6 +246,12 @@ def setDiff (s t : List Int) : List Int := s.filter (fun x => !t.contains x)
 
 /-- `s | t` -/
 def setUnion (s t : List Int) : List Int := s ++ t.filter (fun x => !s.contains x)
+
+/-- `try: return x  except <classes>: return v` -/
+def catchRet {α} (catches : Exc → Bool) (v : α) (x : Py α) : Py α :=
+  match x with
+  | .error e => if catches e then .ok v else .error e
+  | .ok a => .ok a
 
 /-! ## loops -/
 
